@@ -360,6 +360,14 @@ func (in *Interp) Explore(st *State, stop int) {
 		if in.forkSites != nil {
 			f := st.top()
 			in.forkSites[fmt.Sprintf("%s b%d (%s) k=%d", f.fn.String(), f.block.Index, fr.why, len(feas))]++
+			if in.nForks%500 == 0 {
+				fmt.Printf("PROGRESS %d paths, %d forks, %d merged, stack %s\n", len(in.results), in.nForks, in.nMerged, in.stackString(st))
+				for k, v := range in.forkSites {
+					if v > 40 {
+						fmt.Printf("   FORKSITE %6d %s\n", v, k)
+					}
+				}
+			}
 		}
 		// candidate frame for summarisation: the outermost one pushed since the last fork
 		k := -1
@@ -702,6 +710,14 @@ func (in *Interp) record(st *State, e *endPath) {
 		}
 	}
 	in.results = append(in.results, pr)
+	if in.forkSites != nil && len(in.results)%200 == 0 {
+		fmt.Printf("PROGRESS %d paths, %d forks, %d merged\n", len(in.results), in.nForks, in.nMerged)
+		for k, v := range in.forkSites {
+			if v > 50 {
+				fmt.Printf("   FORKSITE %6d %s\n", v, k)
+			}
+		}
+	}
 }
 
 // renderObs renders an observed value under a model the same way vnd.Observe
